@@ -115,7 +115,15 @@ mod replay {
     use std::sync::{Arc, Condvar, Mutex};
     use std::time::{Duration, Instant};
 
-    const STEP_TIMEOUT: Duration = Duration::from_secs(4);
+    /// How long the controller waits for an arrival the schedule expects. Nothing on the unchanged tree comes
+    /// near it; once a process has reported several stalls (the code under test does something else than the
+    /// model, the verdict is a mismatch already) the wait is shortened so that the report does not take minutes.
+    static STALLS_REPORTED: AtomicU32 = AtomicU32::new(0);
+    static STALLS_RETRIED: AtomicU32 = AtomicU32::new(0);
+    const STALL_RETRY_BUDGET: u32 = 3;
+    fn step_timeout() -> Duration {
+        if STALLS_REPORTED.load(Ordering::Relaxed) >= 4 { Duration::from_millis(1500) } else { Duration::from_secs(4) }
+    }
     /// re-runs of a schedule whose select! step polled the other ready branch first (probability about 1/2 each)
     const ATTEMPTS: usize = 20;
 
@@ -488,7 +496,7 @@ mod replay {
             };
             // listeners reach the top of their loop
             for port in run.ports.clone() {
-                run.ctl.at(Role::Listener(port), STEP_TIMEOUT)?;
+                run.ctl.at(Role::Listener(port), step_timeout())?;
             }
             // callers block before their first access
             for k in 0..run.p.nc {
@@ -504,8 +512,8 @@ mod replay {
                     let _ = tx.send(());
                     mgr.shutdown();
                 }).ok()?);
-                let _ = rx.recv_timeout(STEP_TIMEOUT);
-                run.ctl.at(Role::Caller(k), STEP_TIMEOUT)?;
+                let _ = rx.recv_timeout(step_timeout());
+                run.ctl.at(Role::Caller(k), step_timeout())?;
             }
             for _ in 0..run.p.nw {
                 let flag = Arc::new(AtomicBool::new(false));
@@ -582,12 +590,12 @@ mod replay {
             if !self.ctl.release(role) {
                 return Err(Fail::Bad);
             }
-            self.ctl.at(role, STEP_TIMEOUT).ok_or(Fail::Stalled(step))
+            self.ctl.at(role, step_timeout()).ok_or(Fail::Stalled(step))
         }
         fn comp_appears(&self, step: usize) -> Result<(), Fail> {
             if !self.ctl.known(Role::Comp) {
                 // the first swap spawns the completion task
-                self.ctl.at(Role::Comp, STEP_TIMEOUT).ok_or(Fail::Stalled(step))?;
+                self.ctl.at(Role::Comp, step_timeout()).ok_or(Fail::Stalled(step))?;
             }
             Ok(())
         }
@@ -653,7 +661,7 @@ mod replay {
                     }
                     None => {
                         // in flight (re-polled after a wake): wait for it
-                        cur = Some(self.ctl.at(role, STEP_TIMEOUT).ok_or(Fail::Stalled(step))?);
+                        cur = Some(self.ctl.at(role, step_timeout()).ok_or(Fail::Stalled(step))?);
                     }
                 }
             }
@@ -664,7 +672,7 @@ mod replay {
             let role = Role::Listener(port);
             if self.lst[i] == LSt::Parked {
                 // wake-up: by notify or by a queued connection
-                let a = self.ctl.at(role, STEP_TIMEOUT).ok_or(Fail::Stalled(step))?;
+                let a = self.ctl.at(role, step_timeout()).ok_or(Fail::Stalled(step))?;
                 self.lst[i] = LSt::Running;
                 return match a.0 {
                     "ap.poll" => Ok(()),
@@ -743,7 +751,7 @@ mod replay {
             self.clients[c].index = Some(self.conn_order.len());
             self.conn_order.push(c);
             let role = Role::Conn(self.clients[c].port);
-            let a = self.ctl.at(role, STEP_TIMEOUT).ok_or(Fail::Stalled(step))?;
+            let a = self.ctl.at(role, step_timeout()).ok_or(Fail::Stalled(step))?;
             if self.p.fix_a2 && a.0 == "co.start" {
                 // repaired shape: the task is counted already; run it up to the handler
                 self.to_handler(c, step)?;
@@ -753,7 +761,7 @@ mod replay {
         fn to_handler(&mut self, c: usize, step: usize) -> Result<(), Fail> {
             let role = Role::Conn(self.clients[c].port);
             for _ in 0..4 {
-                match self.ctl.at(role, STEP_TIMEOUT).ok_or(Fail::Stalled(step))?.0 {
+                match self.ctl.at(role, step_timeout()).ok_or(Fail::Stalled(step))?.0 {
                     "hd.run" => return Ok(()),
                     "co.start" | "co.counted" => {
                         self.ctl.release(role);
@@ -790,7 +798,7 @@ mod replay {
             let c = *self.conn_order.get(ci).ok_or(Fail::Bad)?;
             let port = self.clients[c].port;
             let role = Role::Conn(port);
-            let at = self.ctl.at(role, STEP_TIMEOUT).ok_or(Fail::Stalled(step))?;
+            let at = self.ctl.at(role, step_timeout()).ok_or(Fail::Stalled(step))?;
             match at.0 {
                 "co.start" if !panic => {
                     // today's shape: add_connection inside the task
@@ -815,7 +823,7 @@ mod replay {
                         self.clients[c].closed = true;
                         drop(stream);
                         if self.p.fix_b {
-                            self.ctl.at(role, STEP_TIMEOUT).ok_or(Fail::Stalled(step))?;
+                            self.ctl.at(role, step_timeout()).ok_or(Fail::Stalled(step))?;
                         } else {
                             std::thread::sleep(Duration::from_millis(5));
                         }
@@ -827,7 +835,7 @@ mod replay {
                         if !ok {
                             return Err(Fail::Stalled(step));
                         }
-                        let a = self.ctl.at(role, STEP_TIMEOUT).ok_or(Fail::Stalled(step))?;
+                        let a = self.ctl.at(role, step_timeout()).ok_or(Fail::Stalled(step))?;
                         if a.0 != "rm.enter" { return Err(Fail::Stalled(step)); }
                         Ok(())
                     }
@@ -873,7 +881,7 @@ mod replay {
                     });
                     (HSt::Reg(rx), Ok(()))
                 }
-                HSt::Reg(rx) => match rx.recv_timeout(STEP_TIMEOUT) {
+                HSt::Reg(rx) => match rx.recv_timeout(step_timeout()) {
                     Ok(s) => (HSt::Sig(s), Ok(())),
                     Err(_) => (HSt::Reg(rx), Err(Fail::Stalled(step))),
                 },
@@ -890,7 +898,7 @@ mod replay {
             let f = self.waiters.get(w).ok_or(Fail::Bad)?;
             let t0 = Instant::now();
             while !f.load(Ordering::SeqCst) {
-                if t0.elapsed() > STEP_TIMEOUT {
+                if t0.elapsed() > step_timeout() {
                     return Err(Fail::Stalled(step));
                 }
                 std::thread::sleep(Duration::from_micros(200));
@@ -1051,8 +1059,8 @@ mod replay {
                     run.abort();
                     return X::L(vec![X::L(obs), X::L(vec![])]);
                 }
-                Some(Fail::Stalled(_)) if !stalled_before => {
-                    // An expected arrival did not happen within STEP_TIMEOUT. If the code really does something else it
+                Some(Fail::Stalled(_)) if !stalled_before && STALLS_RETRIED.fetch_add(1, Ordering::Relaxed) < STALL_RETRY_BUDGET => {
+                    // An expected arrival did not happen in time. If the code really does something else it
                     // will do so again; a machine that is overloaded for seconds will (hopefully) not: run once more.
                     if debug() { eprintln!("stalled at {}: once more", obs.len()); }
                     stalled_before = true;
@@ -1061,6 +1069,7 @@ mod replay {
                 }
                 Some(Fail::Stalled(_)) => {
                     // the code did not do what the schedule expects of it: report what was seen and the outcome
+                    STALLS_REPORTED.fetch_add(1, Ordering::Relaxed);
                     obs.push(X::L(vec![X::N(78)]));
                     let fin = run.finish();
                     return X::L(vec![X::L(obs), fin]);
